@@ -231,8 +231,13 @@ def build(work, instances, need_run=True, jobs=run.NCPU):
             mm = re.search(r"src/([^/]+)/(\w+)\.rs", fn)
             code = (msg.get("code") or {}).get("code", "")
             if mm:
+                prim = next((sp for sp in spans if sp.get("is_primary")), spans[0])
+                src = "".join(t.get("text", "")[t.get("highlight_start", 1) - 1:t.get("highlight_end", 1) - 1]
+                              for t in (prim.get("text") or [])[:1])
                 errs.setdefault(mm.group(1), []).append({"file": mm.group(2), "code": code,
-                                                         "msg": msg["message"][:200]})
+                                                         "msg": msg["message"][:200],
+                                                         "label": (prim.get("label") or "")[:120],
+                                                         "src": src[:60]})
             else:
                 other.append(msg["message"][:200])
         if r.returncode == 0:
@@ -240,7 +245,7 @@ def build(work, instances, need_run=True, jobs=run.NCPU):
         if not errs:
             raise run.ToolError("vgen crate does not build: %s %s" % (other[:3], r.stderr[-500:]))
         for name, es in errs.items():
-            out[name]["rustc"] = es[:5]
+            out[name]["rustc"] = es[:8]
         live = [i for i in live if i["name"] not in errs]
     else:
         raise run.ToolError("vgen crate still failing after retries")
